@@ -39,6 +39,7 @@ CONFIGS = {
     "dbg": ("", "-C target-cpu=native", "dev", ["probes"], [], "native"),
     "rel": ("", "-C target-cpu=native", "release", ["probes"], [], "native"),
     "rel-nobmi": ("", "-C target-cpu=x86-64", "release", ["probes"], [], "native"),
+    "dbg-nobmi": ("", "-C target-cpu=x86-64", "dev", ["probes"], [], "native"),
     "bounds": ("", "-C target-cpu=native", "release", ["probes", "bounds"], [], "native"),
     "asan": ("+nightly", "-Zsanitizer=address -Cforce-frame-pointers=yes -C target-cpu=native", "release", ["probes"],
              ["--target", "x86_64-unknown-linux-gnu"], "native"),
